@@ -10,6 +10,8 @@ def build_cases(ctx, reg):
     quick = ctx.tier == "quick"
     cases = iosuite.corpus_cases("C02")
     cases += iosuite.probe_family(g)
+    cases += iosuite.slices2d_family(g)
+    cases += iosuite.sequences_family(g, 30 if quick else 400)
     cases += iosuite.graphs_family(g, 25 if quick else 400)
     cases += iosuite.strings_family(g)
     cases += iosuite.registered(g, reg, 10 if quick else 150)
